@@ -271,6 +271,9 @@ func (c *c20Client) run(script []string) {
 			}
 			c.do(name, "POST", P("/otp/login"), map[string]string{"email": c.pid, "password": otp}, nil)
 		case "otp-add":
+			if _, in := w.Jars[c.i].SessionCopy()["uid"]; !in {
+				c.do(name+".login", "POST", P("/login"), map[string]string{"email": c.pid, "password": c.pw}, nil)
+			}
 			r := c.do(name, "POST", P("/otp/add"), map[string]string{}, nil)
 			if r.JSON != nil {
 				if o, ok := r.JSON["otp"].(string); ok && o != "" {
@@ -410,14 +413,22 @@ func c20Gen(t *rapid.T) c20Case {
 		Setups: []string{"expire", "totp", "sms", "recovery"}, Mount: pick(t, "mount", "/auth", ""), JSON: chance(t, "json", 50), Browsers: k, Middleware: "remember",
 		LockAfter: 4, LockWindowS: 300, LockDurS: 600, RecoverLogin: chance(t, "reclogin", 50), MailGo: chance(t, "mailgo", 60),
 		Mailer: pick(t, "mailer", "", "log", "smtp", "smtp"), ShippedLog: chance(t, "shippedlog", 70), ModuleList: chance(t, "modlist", 50), Err500: chance(t, "err500", 50), Refusal: 1}
+	otpsEach := pick(t, "otpseach", 0, 0, 2) // accounts that start without any one-time password make their first add an edge of its own
 	for i := 0; i < k; i++ {
-		c.Cfg.Accounts = append(c.Cfg.Accounts, harness.AccountSpec{PID: fmt.Sprintf("acct%d@x.io", i), Password: goodPWs[i%4], OTPs: 2})
+		c.Cfg.Accounts = append(c.Cfg.Accounts, harness.AccountSpec{PID: fmt.Sprintf("acct%d@x.io", i), Password: goodPWs[i%4], OTPs: otpsEach})
 		n := rapid.IntRange(2, 6).Draw(t, "nsteps")
 		var sc []string
 		for j := 0; j < n; j++ {
 			sc = append(sc, pick(t, "step", c20Steps...))
 		}
 		c.Scripts = append(c.Scripts, sc)
+	}
+	if chance(t, "samestart", 40) {
+		// every client starts in the same flow at the same moment: the same code paths (and whatever they share) overlap for sure
+		first := pick(t, "firststep", c20Steps...)
+		for i := range c.Scripts {
+			c.Scripts[i][0] = first
+		}
 	}
 	for i := 0; i < k; i++ {
 		c.Cfg.Accounts = append(c.Cfg.Accounts, harness.AccountSpec{PID: fmt.Sprintf("bounce%d@refuse.x.io", i), Password: goodPWs[i%4]})
